@@ -17,6 +17,7 @@ While a generator of edit X is suspended only descendants of X and unrelated act
 graphtage itself does when it prints sub-edits while iterating the parent's edits()); touching X or an ancestor of X
 while X's own iterator is open would be caller misuse and is not generated.
 """
+import os
 import random
 import xml.etree.ElementTree as ET
 
@@ -607,6 +608,7 @@ class Monitor:
     this code base, so observations are themselves scheduled (seeded) events with a per-run probability."""
 
     def __init__(self, obs_p, obs_seed, log=None):
+        refresh_wrappers()
         self.p = obs_p
         self.rng = random.Random(obs_seed)
         self.objs = {}       # id -> [obj, first, last, intervals(list, capped), n_obs]
@@ -710,9 +712,19 @@ class Monitor:
 MON = None  # the active monitor (None: wrappers are pass-through)
 
 
-def _wrap_class(cls):
-    orig = cls.__dict__["tighten_bounds"]
-    if getattr(orig, "_gsim_wrapped", False):
+_WRAPPED = []     # every class that carries a monitor wrapper in its own __dict__
+
+
+def _is_wrapper(fn):
+    return bool(getattr(fn, "_gsim_wrapped", False))
+
+
+def _wrap_class(cls, orig=None):
+    """Puts a monitor wrapper for tighten_bounds into cls.__dict__.  `orig` is the function the wrapper delegates to:
+    cls's own, or (a public class that inherits its step from a private mixin) the one its MRO resolves to."""
+    if orig is None:
+        orig = cls.__dict__["tighten_bounds"]
+    if _is_wrapper(orig):
         return
 
     plain = isinstance(orig, type(lambda: 0))
@@ -723,11 +735,45 @@ def _wrap_class(cls):
         m = MON
         if m is None or args or kwargs:
             return call(*args, **kwargs)
+        if not _is_wrapper(getattr(type(self), "tighten_bounds", None)):
+            # the object's OWN (most derived) step is a function the monitor has not wrapped, and it reached this one
+            # through super(): what this inner call returns is seen by nobody - it is not the object's step
+            return call()
         return m.around(self, lambda _obj: call())
     tighten_bounds._gsim_wrapped = True
     tighten_bounds.__wrapped__ = orig
     tighten_bounds.__doc__ = getattr(orig, "__doc__", None)
     cls.tighten_bounds = tighten_bounds
+    _WRAPPED.append(cls)
+
+
+def _owner_of(cls):
+    for k in cls.__mro__:
+        if "tighten_bounds" in k.__dict__:
+            return k
+    return None
+
+
+def refresh_wrappers():
+    """At the start of every run: a class DERIVED from a monitored class is an exposed bounded object too, whatever
+    its name and wherever it was defined (a private subclass, a module imported on demand).  If it overrides
+    tighten_bounds, its override is the object's step and gets the wrapper (reviewer variants C04 r4v1, r4v3)."""
+    seen = set()
+    stack = list(_WRAPPED)
+    while stack:
+        k = stack.pop()
+        try:
+            subs = k.__subclasses__()
+        except Exception:
+            continue
+        for sub in subs:
+            if id(sub) in seen:
+                continue
+            seen.add(id(sub))
+            fn = sub.__dict__.get("tighten_bounds")
+            if fn is not None and not _is_wrapper(fn) and not getattr(fn, "__isabstractmethod__", False):
+                _wrap_class(sub)
+            stack.append(sub)
 
 
 def install_monitor_wrappers():
@@ -741,6 +787,7 @@ def install_monitor_wrappers():
             importlib.import_module(extra)
         except BaseException:      # noqa: a missing or renamed module is not the monitor's business
             pass
+    _warm_up()
     import sys as _sys
     seen = []
     for modname, mod in sorted(_sys.modules.items()):
@@ -748,21 +795,69 @@ def install_monitor_wrappers():
             continue
         for name, obj in list(vars(mod).items()):
             # (graphtage/__init__.py rewrites __module__ of many classes to 'graphtage': do not compare it with the
-            #  defining module - any class of the package that defines tighten_bounds itself is taken, once)
-            if isinstance(obj, type) and str(getattr(obj, "__module__", "")).split(".")[0] == "graphtage" \
-                    and "tighten_bounds" in obj.__dict__:
-                fn = obj.__dict__["tighten_bounds"]
-                if getattr(fn, "__isabstractmethod__", False) or getattr(obj, "_is_protocol", False):
-                    continue
-                if obj.__name__.endswith("PARTIAL_IMPLEMENTATION"):
-                    continue
-                if obj.__name__.startswith("_"):
-                    continue     # a private helper class is not one of the bounded objects the engine *exposes*
-                if not callable(getattr(obj, "bounds", None)):
-                    continue     # a step helper without bounds() is not a Bounded object
+            #  defining module - any class of the package that offers the step is taken, once)
+            if not (isinstance(obj, type) and str(getattr(obj, "__module__", "")).split(".")[0] == "graphtage"):
+                continue
+            if obj.__name__.startswith("_") or obj.__name__.endswith("PARTIAL_IMPLEMENTATION") \
+                    or getattr(obj, "_is_protocol", False):
+                continue         # a private helper class is not one of the bounded objects the engine *exposes*
+            owner = _owner_of(obj)
+            if owner is None or not callable(getattr(obj, "bounds", None)):
+                continue         # no step at all / a step helper without bounds() is not a Bounded object
+            fn = owner.__dict__["tighten_bounds"]
+            if getattr(fn, "__isabstractmethod__", False) or getattr(owner, "_is_protocol", False):
+                continue
+            if _is_wrapper(fn):
+                seen.append(obj.__name__) if owner is obj else None
+                continue
+            if owner is obj:
                 _wrap_class(obj)
                 seen.append(obj.__name__)
+            elif owner.__name__.startswith("_") or str(getattr(owner, "__module__", "")).split(".")[0] != "graphtage":
+                # a public class that takes its step from a private mixin / base: the wrapper goes on the public class
+                _wrap_class(obj, fn)
+                seen.append(obj.__name__)
+            # else: inherited from another public class of the package, which carries (or will carry) the wrapper
+    refresh_wrappers()
     return sorted(set(seen))
+
+
+def _warm_up():
+    """One tiny comparison per document family before the classes are collected, so that modules the package imports
+    on demand (function-level imports) are loaded in EVERY process before its first run - which classes carry a
+    wrapper must not depend on what a worker happened to execute earlier."""
+    if os.environ.get("GSIM_NO_WARMUP"):
+        return          # C07 children: nothing of graphtage may run before the history itself
+    try:
+        opts = {"allow_key_edits": True, "auto_match_keys": True, "allow_list_edits": True,
+                "allow_list_edits_when_same_length": True}
+        samples = [("json", {"a": [1, "x"], "b": {"c": None}}, {"a": [2, "xy", 3], "d": {"c": True}}),
+                   ("plist", {"a": [1, "x"]}, {"a": ["x", 2], "b": 1}),
+                   ("csv", [["a", "b"], ["c", "d"]], [["a", "x"], ["c"]]),
+                   ("xml", ["r", {"k": "v"}, "text", [["c", {}, "t1", []], ["d", {}, "", []]]],
+                    ["r", {"k": "w", "j": "u"}, "other", [["c", {}, "t2", []]]]),
+                   ("py", [{"$obj": "A", "attrs": {"x": 1}}, {"$tuple": [1, 2]}, {"$set": [1, 2]}],
+                    [{"$obj": "A", "attrs": {"x": 2, "y": [1]}}, {"$tuple": [1]}, {"$set": [2, 3]}]),
+                   ("ast", [{"k": "assign", "t": ["x"], "v": {"$call": "f", "a": [1], "kw": {"k": {"$attr": ["a", "b"]}}}},
+                            {"k": "import", "m": "m", "n": [["a", "b"]]}],
+                    [{"k": "assign", "t": ["x"], "v": {"$call": "f", "a": [2], "kw": {"k": {"$sub": [{"$name": "a"}, 0]}}}},
+                     {"k": "import", "m": "m", "n": [["a", "c"], ["d", ""]]}])]
+        q = DEFAULT_PRINTER.quiet
+        DEFAULT_PRINTER.quiet = True
+        try:
+            for fam, a, b in samples:
+                try:
+                    ta, tb = build_tree(fam, a, opts), build_tree(fam, b, opts)
+                    d = ta.diff(tb)
+                    d.edited_cost()
+                    for _ in ta.get_all_edits(tb):
+                        pass
+                except Exception:       # noqa: a family this tree cannot build is not the monitor's business
+                    pass
+        finally:
+            DEFAULT_PRINTER.quiet = q
+    except BaseException:               # noqa
+        pass
 
 
 WRAPPED_CLASSES = install_monitor_wrappers()
